@@ -28,6 +28,11 @@ FRESH_METHODS = {'copy', 'astype', 'flatten', 'tolist', 'tobytes', 'dot', 'sum',
 NP_VIEW_FUNCS = {'asarray', 'asanyarray', 'reshape', 'transpose', 'squeeze', 'ravel', 'atleast_1d', 'atleast_2d', 'broadcast_arrays', 'diagonal'}
 NP_WRITERS = {'copyto': 0, 'put': 0, 'fill_diagonal': 0, 'place': 0, 'putmask': 0}   # index of the written argument
 
+def _name_of(func):
+    if isinstance(func, ast.Name): return func.id
+    if isinstance(func, ast.Attribute): return func.attr
+    return None
+
 class FuncIR:
     def __init__(self, qualname, params, node, cls=None):
         self.qualname = qualname; self.params = params; self.node = node; self.cls = cls
@@ -36,11 +41,21 @@ class FuncIR:
         self.calls = []        # (target var or None, callee key, [arg exprs as var lists])
         self.returns = []      # vars (or '<fresh>')
         self.summary = dict(fresh=True, aliases=set(), writes=set())
+        self.listvars = set()
+        for n in ast.walk(node):
+            if isinstance(n, ast.Assign) and isinstance(n.value, (ast.List, ast.ListComp, ast.Dict, ast.DictComp)) or \
+               isinstance(n, ast.Assign) and isinstance(n.value, ast.Call) and _name_of(n.value.func) in ('list', 'dict'):
+                for t in n.targets:
+                    if isinstance(t, ast.Name): self.listvars.add(t.id)
 
-def _name_of(func):
-    if isinstance(func, ast.Name): return func.id
-    if isinstance(func, ast.Attribute): return func.attr
-    return None
+def star(v): return v if v.endswith('.*') else v + '.*'
+def deep(vs):
+    out = []
+    for v in vs:
+        if v not in out: out.append(v)
+        if star(v) not in out: out.append(star(v))
+    return out
+
 
 class Builder(ast.NodeVisitor):
     """collects assignments / writes of one function body"""
@@ -55,12 +70,16 @@ class Builder(ast.NodeVisitor):
         if e is None: return (True, [])
         if isinstance(e, ast.Name): return (False, [e.id])
         if isinstance(e, ast.Constant): return (True, [])
-        if isinstance(e, (ast.Subscript, ast.Starred)):
-            return self.expr(e.value)                      # a slice / element of x may alias x
+        if isinstance(e, ast.Starred):
+            return self.expr(e.value)
+        if isinstance(e, ast.Subscript):
+            self.expr_effects(e.slice)
+            b = self.expr(e.value)                         # a slice of x is a view of x; an element of a list x is in x.*
+            return (b[0], deep(b[1]))
         if isinstance(e, ast.Attribute):
-            base = self.expr(e.value)
-            if e.attr in VIEW_ATTRS or True:               # any attribute of an object may expose its buffer
-                return (base[0], base[1])
+            b = self.expr(e.value)                         # any attribute of an object may expose its buffer or a component
+            if e.attr == 'data': return b                  # the backing list of a UserList is the object itself
+            return (b[0], deep(b[1]))
         if isinstance(e, (ast.BinOp, ast.UnaryOp, ast.Compare, ast.BoolOp, ast.JoinedStr, ast.FormattedValue)):
             if isinstance(e, ast.BoolOp):                  # `a or b` returns one of its operands
                 fr, al = False, []
@@ -77,11 +96,11 @@ class Builder(ast.NodeVisitor):
         if isinstance(e, (ast.List, ast.Tuple, ast.Set)):
             al = []
             for el in e.elts: al += self.expr(el)[1]
-            return (True, al)                              # the container is new, its elements may alias
+            return self.container(al)                      # the container is new, its elements may alias
         if isinstance(e, ast.Dict):
             al = []
             for el in e.values: al += self.expr(el)[1]
-            return (True, al)
+            return self.container(al)
         if isinstance(e, (ast.ListComp, ast.GeneratorExp, ast.SetComp, ast.DictComp)):
             al = []
             for g in e.generators:
@@ -90,7 +109,7 @@ class Builder(ast.NodeVisitor):
                 for c in g.ifs: self.expr_effects(c)
             elt = e.elt if not isinstance(e, ast.DictComp) else e.value
             al += self.expr(elt)[1]
-            return (True, al)
+            return self.container(al)
         if isinstance(e, ast.Lambda):
             return (True, [])
         if isinstance(e, ast.Call):
@@ -98,6 +117,14 @@ class Builder(ast.NodeVisitor):
         if isinstance(e, ast.NamedExpr):
             r = self.expr(e.value); self.bind_target(e.target, r); return r
         return (True, [])
+
+    def container(self, al):
+        """a new object whose contents may be the given variables"""
+        if not al: return (True, [])
+        t = self.fresh_tmp()
+        self.f.assigns.append((t, True, [], []))
+        self.f.assigns.append((star(t), False, deep(al), []))
+        return (False, [t])
 
     def expr_effects(self, e):
         """evaluate for side effects only (calls inside conditions etc.)"""
@@ -121,9 +148,10 @@ class Builder(ast.NodeVisitor):
                     return (True, al)
                 if modbase == 'copy':
                     al = []
-                    if fn == 'copy':                      # shallow copy: elements may alias
-                        for a in args: al += a[1]
-                    return (True, al)
+                    if fn == 'copy':                      # shallow copy: a new container, elements may alias
+                        for a in args: al += [star(v) for v in a[1]]
+                        return self.container(al)
+                    return (True, [])
                 return (True, [])
             if fn in INPLACE_METHODS and fn not in self.known_methods_only_library():
                 self.write_expr(e.func.value)
@@ -141,10 +169,14 @@ class Builder(ast.NodeVisitor):
             allargs = ([recv] if recv is not None else []) + args
             self.f.calls.append((tgt, fn, [a[1] for a in allargs], recv is not None))
             return (False, [tgt])
-        if fn in ('list', 'tuple', 'dict', 'set', 'sorted', 'reversed', 'zip', 'map', 'filter', 'enumerate', 'iter', 'next'):
+        if fn in ('list', 'tuple', 'dict', 'set', 'sorted', 'reversed', 'zip', 'map', 'filter', 'enumerate', 'iter'):
             al = []
-            for a in args: al += a[1]
-            return (True, al)                              # new container / iterator over possibly aliased elements
+            for a in args: al += [star(v) for v in a[1]]
+            return self.container(al)                      # new container over the same elements
+        if fn == 'next':
+            al = []
+            for a in args: al += [star(v) for v in a[1]]
+            return (True, al)
         if fn in ('getattr',):
             return (args[0][0], args[0][1]) if args else (True, [])
         if fn in ('isinstance', 'len', 'abs', 'float', 'int', 'str', 'bool', 'range', 'type', 'print', 'all', 'any', 'sum', 'min', 'max',
@@ -162,17 +194,31 @@ class Builder(ast.NodeVisitor):
     # ---- targets ------------------------------------------------------------------------------
     def bind_target(self, t, rhs):
         if isinstance(t, ast.Name):
-            self.f.assigns.append((t.id, rhs[0], list(rhs[1]), []))
+            self.assign_var(t.id, rhs)
         elif isinstance(t, (ast.Tuple, ast.List)):
             for el in t.elts: self.bind_target(el, rhs)
         elif isinstance(t, ast.Starred):
             self.bind_target(t.value, rhs)
         elif isinstance(t, (ast.Subscript, ast.Attribute)):
             self.write_expr(t.value)
-            # storing a reference into a container: the container now may expose the stored buffer
+            # storing a reference into an object attribute / list slot: the object's contents now include the stored
+            # buffer.  Element stores into ndarrays copy values; a subscript store keeps a reference only when the target
+            # is list-typed in this function (see DESIGN.md, C17 modelling assumptions).
+            if isinstance(t, ast.Subscript) and not self.listy(t.value): return
             base = self.expr(t.value)
             for b in base[1]:
-                self.f.assigns.append((b, False, list(rhs[1]), []))
+                self.f.assigns.append((star(b), False, deep(rhs[1]), []))
+
+    def listy(self, e):
+        if isinstance(e, ast.Attribute): return e.attr in ('data', '__dict__')
+        if isinstance(e, ast.Name): return e.id in self.f.listvars
+        return False
+
+    def assign_var(self, x, rhs):
+        self.f.assigns.append((x, rhs[0], list(rhs[1]), []))
+        for v in rhs[1]:                                   # same object => same contents, both directions
+            self.f.assigns.append((star(x), False, [star(v)], []))
+            self.f.assigns.append((star(v), False, [star(x)], []))
 
     def write_expr(self, e):
         fr, al = self.expr(e)
@@ -228,6 +274,11 @@ class Builder(ast.NodeVisitor):
     def visit_ClassDef(self, n):
         pass
 
+def display(name):
+    """display / plotting helpers are outside the property (they produce text or graphics, not values)"""
+    n = name.lower()
+    return any(k in n for k in ('plot', 'print', 'anim', 'string', 'format', 'repr', '__str__', 'color'))
+
 def collect():
     """parse the library; returns {key: FuncIR} with key = function or method name (methods merged by name)"""
     funcs = []
@@ -240,12 +291,12 @@ def collect():
         mod = m[:-3].replace('/', '.')
         for node in tree.body:
             if isinstance(node, ast.FunctionDef):
-                if 'plot' in node.name or 'print' in node.name or 'anim' in node.name.lower(): continue
+                if display(node.name): continue
                 funcs.append(FuncIR(f'{mod}.{node.name}', [a.arg for a in node.args.args + node.args.kwonlyargs], node))
             elif isinstance(node, ast.ClassDef):
                 for sub in node.body:
                     if isinstance(sub, ast.FunctionDef):
-                        if 'plot' in sub.name or 'print' in sub.name or 'anim' in sub.name.lower() or sub.name in ('__repr__', '__str__', '_repr_pretty_'): continue
+                        if display(sub.name): continue
                         params = [a.arg for a in sub.args.args + sub.args.kwonlyargs]
                         is_static = any(isinstance(d, ast.Name) and d.id in ('staticmethod',) for d in sub.decorator_list)
                         is_cls = any(isinstance(d, ast.Name) and d.id == 'classmethod' for d in sub.decorator_list)
@@ -274,6 +325,7 @@ def analyse():
         for i, p in enumerate(f.params):
             first_fresh = (i == 0 and (short(f) in ('__init__', '__new__') or getattr(f, 'is_cls', False)))
             A[p] = {'fresh'} if first_fresh else {('param', i)}
+            A[star(p)] = set() if first_fresh else {('param', i)}
         assigns = list(f.assigns)
         writes = list(f.writes)
         for (tgt, callee, argvars, has_recv) in f.calls:
@@ -282,8 +334,10 @@ def analyse():
                 cands = names.get('__init__', [])
             al = []; fresh = False
             if callee in classes:
-                fresh = True
-                for av in argvars: al += av                  # a new object that may keep references to its arguments
+                fresh = True                                 # a new object that may keep references to its arguments
+                inner = []
+                for av in argvars: inner += deep(av)
+                assigns.append((star(tgt), False, inner, []))
             for c in (names.get(callee, []) if callee not in classes else []):
                 sm = c.summary
                 fresh = fresh or sm['fresh']
@@ -297,6 +351,9 @@ def analyse():
                     if 0 <= j < len(argvars): writes += argvars[j]
             if not names.get(callee) and callee not in classes: fresh = True
             assigns.append((tgt, fresh, al, []))
+            for v in al:
+                assigns.append((star(tgt), False, [star(v)], []))
+                assigns.append((star(v), False, [star(tgt)], []))
         changed = True
         while changed:
             changed = False
@@ -316,7 +373,7 @@ def analyse():
             ret_al = set(); fresh = False
             for r in f.returns:
                 if r == '<fresh>': fresh = True; continue
-                for o in A.get(r, {'fresh'}):
+                for o in A.get(r, {'fresh'}) | A.get(star(r), set()):
                     if o == 'fresh': fresh = True
                     else: ret_al.add(o[1])
             if not f.returns: fresh = True
@@ -355,10 +412,11 @@ def violations(an):
 def emit(an):
     lines = ["/- GENERATED by smv/alias/astir.py from /repo — do not edit.  Alias/effect programs of every library function. -/",
              "import SmVerif.Logic.AliasIR", "", "namespace SmVerif.Gen", "open SmVerif.Logic.Alias", "",
-             "/-- (name, allowed parameter writes, program, certificate) -/",
-             "def aliasPrograms : List (String × List Nat × Prog × List (Var × List Org)) := ["]
-    rows = []
-    for r in an:
+             "set_option maxRecDepth 100000", "",
+             "/-- a row: (name, allowed parameter writes, program, certificate) -/",
+             "abbrev AliasRow := String × List Nat × Prog × List (Var × List Org)", ""]
+    names = []
+    for k, r in enumerate(an):
         f = r['func']
         vars_ = {}
         def vid(x):
@@ -367,10 +425,12 @@ def emit(an):
         for p in f.params: vid(p)
         stm = []
         for (x, fr, al, ps) in r['assigns']:
-            stm.append(f".assign {vid(x)} ⟨{'true' if fr else 'false'}, [{', '.join(str(vid(y)) for y in sorted(set(al)))}], [{', '.join(map(str, ps))}]⟩")
+            s_ = f".assign {vid(x)} ⟨{'true' if fr else 'false'}, [{', '.join(str(vid(y)) for y in sorted(set(al)))}], [{', '.join(map(str, ps))}]⟩"
+            if s_ not in stm: stm.append(s_)
         for i, p in enumerate(f.params):
             first_fresh = (i == 0 and (short(f) in ('__init__', '__new__') or getattr(f, 'is_cls', False)))
             stm.append(f".assign {vid(p)} ⟨{'true' if first_fresh else 'false'}, [], [{'' if first_fresh else i}]⟩")
+            if not first_fresh: stm.append(f".assign {vid(star(p))} ⟨false, [], [{i}]⟩")
         for w in sorted(set(r['writes'])):
             stm.append(f".write {vid(w)}")
         def org(o): return '.fresh' if o == 'fresh' else f'.param {o[1]}'
@@ -379,9 +439,15 @@ def emit(an):
             os_ = sorted(r['A'].get(x, {'fresh'}), key=lambda o: (-1,) if o == 'fresh' else (o[1],))
             cert.append(f"({i}, [{', '.join(org(o) for o in os_)}])")
         allow = sorted(allowed_param_writes(f))
-        rows.append(f'  ("{f.qualname}", [{", ".join(map(str, allow))}], [{", ".join(stm)}], [{", ".join(cert)}])')
-    lines.append(',\n'.join(rows))
-    lines += ["]", "", "end SmVerif.Gen", ""]
+        lines.append(f'/-- `{f.qualname}({", ".join(f.params)})` -/')
+        lines.append(f'def aliasRow{k} : AliasRow :=\n  ("{f.qualname}", [{", ".join(map(str, allow))}],\n   [{", ".join(stm)}],\n   [{", ".join(cert)}])')
+        names.append(f'aliasRow{k}')
+    chunks = [names[i:i + 40] for i in range(0, len(names), 40)]
+    for c, ch in enumerate(chunks):
+        lines.append(f"def aliasChunk{c} : List AliasRow := [{', '.join(ch)}]")
+    lines.append("def aliasChunks : List (List AliasRow) := [" + ', '.join(f'aliasChunk{c}' for c in range(len(chunks))) + "]")
+    lines.append("def aliasPrograms : List AliasRow := aliasChunks.flatten")
+    lines += ["", "end SmVerif.Gen", ""]
     return '\n'.join(lines)
 
 if __name__ == '__main__':
